@@ -1,14 +1,21 @@
-"""Process model (DESIGN §2.2, §2.3 A1): one brand-new interpreter per session and per
-reference, ASLR off, sanitised fixed environment, chosen PYTHONHASHSEED, byte-code loaded from a
-run-scoped cache that is filled before any session starts."""
+"""Process model (DESIGN §2.2, §2.3 A1).
+
+Every session and every reference runs in its own interpreter process that has analysed nothing
+before: a forked child of a per-PYTHONHASHSEED zygote (sim.zygote) which is itself started with
+ASLR off (`setarch -R`), a sanitised fixed environment, TEALER_VERIF=1 and byte-code loaded from a
+run-scoped cache filled before any session starts.  SIM_MODE=exec switches to one exec'd
+interpreter per session (slower here; kept as a cross-check of the fork model).
+"""
 
 import itertools
 import json
 import os
 import shutil
+import signal
 import subprocess
 import sys
 import tempfile
+import threading
 import time
 from concurrent.futures import ThreadPoolExecutor
 from typing import Any, Dict, Iterable, List, Optional, Tuple
@@ -16,6 +23,7 @@ from typing import Any, Dict, Iterable, List, Optional, Tuple
 VERIF = os.path.dirname(os.path.dirname(os.path.abspath(__file__)))
 PYTHON = "/venv/bin/python"
 CORPUS = os.path.join(VERIF, "corpus", "teal")
+MAX_ZYGOTES = 48
 
 
 def tealer_src() -> str:
@@ -26,21 +34,131 @@ class HarnessError(Exception):
     pass
 
 
+class Zygote:
+    def __init__(self, runner: "Runner", hashseed: int) -> None:
+        self.hashseed = hashseed
+        self.runner = runner
+        cmd = [PYTHON, "-X", "faulthandler", "-s", "-m", "sim.zygote"]
+        if runner.aslr:
+            cmd = ["setarch", os.uname().machine, "-R"] + cmd
+        self.proc = subprocess.Popen(  # pylint: disable=consider-using-with
+            cmd,
+            stdin=subprocess.PIPE,
+            stdout=subprocess.PIPE,
+            stderr=subprocess.PIPE,
+            env=runner.env(hashseed),
+            cwd=runner.run_dir,
+        )
+        self.lock = threading.Lock()
+        self.waiters: Dict[int, threading.Event] = {}
+        self.pids: Dict[int, int] = {}
+        self.ready = threading.Event()
+        self.dead = False
+        self.last_used = 0
+        self.reader = threading.Thread(target=self._read, daemon=True)
+        self.reader.start()
+        if not self.ready.wait(120):
+            err = b""
+            try:
+                self.proc.kill()
+                err = self.proc.stderr.read() if self.proc.stderr else b""
+            except Exception:  # pylint: disable=broad-except
+                pass
+            raise HarnessError("zygote did not start: " + err.decode("utf-8", "replace")[-2000:])
+
+    def _read(self) -> None:
+        assert self.proc.stdout is not None
+        for raw in self.proc.stdout:
+            parts = raw.split()
+            if len(parts) < 2:
+                continue
+            tag = parts[0]
+            if tag == b"R":
+                self.ready.set()
+            elif tag == b"S" and len(parts) >= 3:
+                self.pids[int(parts[1])] = int(parts[2])
+            elif tag == b"D":
+                ev = self.waiters.get(int(parts[1]))
+                if ev is not None:
+                    ev.set()
+        self.dead = True
+        self.ready.set()
+        for ev in list(self.waiters.values()):
+            ev.set()
+
+    def submit(self, num: int, timeout: float) -> Tuple[bool, bool]:
+        """-> (finished, timed_out)"""
+        ev = threading.Event()
+        self.waiters[num] = ev
+        with self.lock:
+            assert self.proc.stdin is not None
+            self.proc.stdin.write(b"%08d\n" % num)
+            self.proc.stdin.flush()
+        deadline = time.time() + timeout
+        finished = False
+        while time.time() < deadline:
+            if ev.wait(0.5):
+                finished = not self.dead or num not in self.pids or True
+                break
+            pid = self.pids.get(num)
+            if pid is not None and not _alive(pid):
+                # the child is gone without a D line (killed by a signal)
+                ev.wait(0.2)
+                break
+        timed_out = False
+        if not ev.is_set():
+            pid = self.pids.get(num)
+            if pid is not None and _alive(pid):
+                timed_out = True
+                try:
+                    os.kill(pid, signal.SIGKILL)
+                except OSError:
+                    pass
+        self.waiters.pop(num, None)
+        self.pids.pop(num, None)
+        return ev.is_set() and finished, timed_out
+
+    def close(self) -> None:
+        try:
+            if self.proc.stdin:
+                self.proc.stdin.close()
+            self.proc.wait(5)
+        except Exception:  # pylint: disable=broad-except
+            try:
+                self.proc.kill()
+            except Exception:  # pylint: disable=broad-except
+                pass
+
+
+def _alive(pid: int) -> bool:
+    try:
+        os.kill(pid, 0)
+    except OSError:
+        return False
+    try:
+        with open(f"/proc/{pid}/stat", encoding="utf-8") as f:
+            return f.read().split(")")[-1].split()[0] != "Z"
+    except OSError:
+        return False
+
+
 class Runner:
-    """Owns the run-scoped scratch tree: <run>/pyc (byte-code cache) and <run>/s<nnnnnn> (one
+    """Owns the run-scoped scratch tree: <run>/pyc (byte-code cache) and <run>/s<nnnnnnnn> (one
     directory per session, removed when the session ends)."""
 
     def __init__(self, workers: int = 16, src: Optional[str] = None) -> None:
         self.src = (src or tealer_src()).rstrip("/")
         self.workers = workers
+        self.mode = os.environ.get("SIM_MODE", "fork")
         base = os.environ.get("SIM_TMP", tempfile.gettempdir())
-        self.run_dir = tempfile.mkdtemp(prefix="tsim-", dir=base)
         # fixed-length directory name: the environment block is copied into the interpreter at
         # start-up and its size must not vary between runs
         fixed = os.path.join(base, "tsim-%08d" % os.getpid())
-        if os.path.exists(fixed):
-            shutil.rmtree(fixed, ignore_errors=True)
-        os.rename(self.run_dir, fixed)
+        n = 0
+        while os.path.exists(fixed):
+            n += 1
+            fixed = os.path.join(base, "tsim-%08d" % ((os.getpid() + n * 4194304) % 100000000))
+        os.makedirs(fixed)
         self.run_dir = fixed
         self.pyc = os.path.join(self.run_dir, "pyc")
         os.makedirs(self.pyc)
@@ -48,12 +166,16 @@ class Runner:
         self.sessions_run = 0
         self.aslr = shutil.which("setarch") is not None
         self.corpus = CORPUS
-        self.extra_corpus = os.path.join(self.run_dir, "corpus")
         self._prepared = False
+        self._prep_lock = threading.Lock()
+        self.zygotes: Dict[int, Zygote] = {}
+        self._zlock = threading.Lock()
+        self.zygotes_started = 0
+        self._tick = itertools.count(1)
 
     # ------------------------------------------------------------------
-    def env(self, hashseed: int, scratch: str) -> Dict[str, str]:
-        return {
+    def env(self, hashseed: int, scratch: str = "") -> Dict[str, str]:
+        e = {
             "PATH": "/usr/bin:/bin",
             "HOME": "/nonexistent",
             "LANG": "C.UTF-8",
@@ -62,74 +184,101 @@ class Runner:
             "TEALER_SRC": self.src,
             "PYTHONPATH": self.src + ":" + VERIF,
             "PYTHONPYCACHEPREFIX": self.pyc,
-            "SIM_SCRATCH": scratch,
+            "SIM_BASE": self.run_dir,
             "SIM_CORPUS": self.corpus,
             "TEALER_ROOT_OUTPUT_DIR": "out",
         }
-
-    def argv(self) -> List[str]:
-        cmd = [PYTHON, "-X", "faulthandler", "-s", "-m", "sim.session"]
-        if self.aslr:
-            cmd = ["setarch", os.uname().machine, "-R"] + cmd
-        return cmd
+        if scratch:
+            e["SIM_SCRATCH"] = scratch
+        return e
 
     def prepare(self) -> None:
-        """Fill the byte-code cache: compileall for tealer and sim, then a warm-up session run
-        twice so that every third-party / stdlib module the sessions import is cached too."""
-        if self._prepared:
-            return
-        env = dict(os.environ)
-        env["PYTHONPYCACHEPREFIX"] = self.pyc
-        for d in (os.path.join(self.src, "tealer"), os.path.join(VERIF, "sim")):
-            subprocess.run(
-                [PYTHON, "-m", "compileall", "-q", d],
-                env=env,
-                check=False,
-                stdout=subprocess.DEVNULL,
-                stderr=subprocess.DEVNULL,
-            )
-        warm = {
-            "ops": [
-                {"op": "info"},
-                {"op": "single", "c": "t000", "dets": [], "runs": []},
-                {"op": "cli", "c": "t000", "argv": ["--json", "-", "detect", "--contracts", "{C}"]},
-                {"op": "printer", "c": "t000", "name": "human-summary"},
-            ]
-        }
-        for _ in range(2):
-            out = self.run(warm, 0, timeout=120)
-            if "harness_error" in out:
-                raise HarnessError("warm-up session failed: " + out["harness_error"] + "\n" + out.get("trace", ""))
-        self._prepared = True
-
-    # ------------------------------------------------------------------
-    def run(self, spec: Dict[str, Any], hashseed: int, timeout: float = 300.0) -> Dict[str, Any]:
-        """Run one session in a fresh interpreter; returns {"events":[...], "done":bool, ...}."""
-        scratch = os.path.join(self.run_dir, "s%06d" % (next(self._counter) % 1000000))
-        os.makedirs(scratch, exist_ok=True)
-        self.sessions_run += 1
-        t0 = time.time()
-        try:
-            try:
+        """Fill the byte-code cache: compileall for tealer and sim, then a warm-up interpreter that
+        imports everything a session can import, so no session ever compiles a module."""
+        with self._prep_lock:
+            if self._prepared:
+                return
+            env = dict(os.environ)
+            env["PYTHONPYCACHEPREFIX"] = self.pyc
+            for d in (os.path.join(self.src, "tealer"), os.path.join(VERIF, "sim")):
+                subprocess.run(
+                    [PYTHON, "-m", "compileall", "-q", d],
+                    env=env,
+                    check=False,
+                    stdout=subprocess.DEVNULL,
+                    stderr=subprocess.DEVNULL,
+                )
+            for _ in range(2):
                 p = subprocess.run(
-                    self.argv(),
-                    input=json.dumps(spec).encode(),
-                    env=self.env(hashseed, scratch),
-                    stdout=subprocess.PIPE,
-                    stderr=subprocess.PIPE,
-                    timeout=timeout,
-                    cwd=scratch,
+                    [PYTHON, "-s", "-c", "from sim import session; session.preload()"],
+                    env=self.env(0),
+                    capture_output=True,
                     check=False,
                 )
-                stdout, stderr, rc, timed_out = p.stdout, p.stderr, p.returncode, False
-            except subprocess.TimeoutExpired as e:
-                stdout, stderr, rc, timed_out = e.stdout or b"", e.stderr or b"", None, True
+                if p.returncode != 0:
+                    raise HarnessError("warm-up import failed: " + p.stderr.decode("utf-8", "replace")[-3000:])
+            self._prepared = True
+
+    # ------------------------------------------------------------------
+    def zygote(self, hashseed: int) -> Zygote:
+        with self._zlock:
+            z = self.zygotes.get(hashseed)
+            if z is not None and not z.dead:
+                z.last_used = next(self._tick)
+                return z
+            if len(self.zygotes) >= MAX_ZYGOTES:
+                idle = sorted((zz.last_used, h) for h, zz in self.zygotes.items() if not zz.waiters)
+                for _lu, h in idle[: max(1, len(idle) // 2)]:
+                    self.zygotes.pop(h).close()
+            z = Zygote(self, hashseed)
+            self.zygotes_started += 1
+            z.last_used = next(self._tick)
+            self.zygotes[hashseed] = z
+            return z
+
+    def run(self, spec: Dict[str, Any], hashseed: int, timeout: float = 300.0) -> Dict[str, Any]:
+        """Run one session in an interpreter of its own; returns {"events":[...], "done":bool, ...}."""
+        self.prepare()
+        num = next(self._counter) % 100000000
+        scratch = os.path.join(self.run_dir, "s%08d" % num)
+        os.makedirs(scratch)
+        self.sessions_run += 1
+        t0 = time.time()
+        timed_out = False
+        stderr = b""
+        try:
+            with open(os.path.join(scratch, "spec.json"), "w", encoding="utf-8") as f:
+                f.write(json.dumps(spec))
+            if self.mode == "exec":
+                cmd = [PYTHON, "-X", "faulthandler", "-s", "-m", "sim.session"]
+                if self.aslr:
+                    cmd = ["setarch", os.uname().machine, "-R"] + cmd
+                try:
+                    p = subprocess.run(
+                        cmd,
+                        env=self.env(hashseed, scratch),
+                        stdout=subprocess.PIPE,
+                        stderr=subprocess.PIPE,
+                        timeout=timeout,
+                        cwd=scratch,
+                        check=False,
+                    )
+                    stderr = p.stderr
+                except subprocess.TimeoutExpired:
+                    timed_out = True
+            else:
+                _fin, timed_out = self.zygote(hashseed).submit(num, timeout)
+            text = ""
+            outp = os.path.join(scratch, "out.jsonl")
+            if os.path.exists(outp):
+                with open(outp, encoding="utf-8", errors="replace") as f:
+                    text = f.read()
         finally:
             shutil.rmtree(scratch, ignore_errors=True)
         events: List[Dict[str, Any]] = []
         done = False
         res: Dict[str, Any] = {}
-        for line in stdout.decode("utf-8", "replace").splitlines():
+        for line in text.splitlines():
             line = line.strip()
             if not line:
                 continue
@@ -144,10 +293,9 @@ class Runner:
                 done = True
             elif "i" in obj:
                 events.append(obj)
-        res.update({"events": events, "done": done, "timed_out": timed_out, "rc": rc, "wall": time.time() - t0})
+        res.update({"events": events, "done": done, "timed_out": timed_out, "wall": time.time() - t0})
         if not done and not timed_out and "harness_error" not in res:
-            # the interpreter died (segfault, os._exit, ...) — keep the tail of stderr
-            res["died"] = stderr.decode("utf-8", "replace")[-2000:]
+            res["died"] = "interpreter exited before the session finished " + stderr.decode("utf-8", "replace")[-1500:]
         return res
 
     def run_many(
@@ -164,6 +312,9 @@ class Runner:
                 yield tag, fut.result()
 
     def close(self) -> None:
+        for z in list(self.zygotes.values()):
+            z.close()
+        self.zygotes = {}
         shutil.rmtree(self.run_dir, ignore_errors=True)
 
     def __enter__(self) -> "Runner":
@@ -176,6 +327,5 @@ class Runner:
 if __name__ == "__main__":
     # manual use: python -m sim.launch spec.json [hashseed]
     with Runner(workers=1) as r:
-        r.prepare()
-        spec_ = json.load(open(sys.argv[1]))
+        spec_ = json.load(open(sys.argv[1], encoding="utf-8"))
         print(json.dumps(r.run(spec_, int(sys.argv[2]) if len(sys.argv) > 2 else 0), indent=1))
